@@ -60,6 +60,11 @@ def specs(pid, tier):
                 sp.append(("cm3", 0x01, ((None, pat),)))
                 sp.append(("cm3", 0x81, ((255, None), (None, pat), (None, "all-up"))))
         sp.append(("cm3", 0x01, ((None, "all-left"), (None, "left-at-col0-then-literal"))))
+        # two pages: the first line of page 2 refers to the last line of page 1 (copy-up, copy-left at column 0)
+        sp.append(("cm3", 0x81, ((255, None), ("page", None), (None, "all-up"))))
+        sp.append(("cm3", 0x81, ((128, None), ("page", None), (None, "all-left"))))
+        if T:
+            sp.append(("cm3", 0x80, ((255, None), ("page", None), (None, "all-up"), (None, "left-at-col0-then-literal"))))
         for n, ol in ((2, 3), (3, 3), (4, 3)) + (((5, 3), (4, 5)) if T else ()):
             sp.append(("unsquash", n, ol))
         for cb in (129, 130, 255, 128, 127) if T else (129, 255, 128):
@@ -88,6 +93,16 @@ def specs(pid, tier):
             sp.append(("cm3", typ, ((None, "all-left"),)))
         sp.append(("mge", "raw", 3, True))
         sp.append(("mge", "rle", 2, True))
+        for tb in (0, 1, 3):
+            sp.append(("vef", tb, 2, None))
+        sp.append(("vefsq", 3))
+        # standard input instead of a file: same bytes, same result (with and without -s)
+        sp.append(("pipe", ("hrs", 4, 1, None, 18)))
+        sp.append(("pipe", ("hrs", 4, 1, 2, 20)))
+        sp.append(("pipe", ("max", 0, False, 8, 1, None, False, 6)))
+        sp.append(("pipe", ("max", 0, False, 8, 1, 2, False, 8)))
+        sp.append(("pipe", ("max", 0, True, 256, None, 2, False, 7)))
+        sp.append(("pipe", ("pix", 8)))
     elif pid == "C19":
         for L in range(0, 21 if not T else 25):
             sp.append(("hrs", 4, 2, None, L))
@@ -199,7 +214,9 @@ def _work(pid, spec, st, out):
         elif pid == "C17":
             obligations_pixels(out, spec, st, pid)
         elif pid == "C18":
-            if spec[0] in ("cm3", "mge", "rat"):
+            if spec[0] in ("vef", "vefsq"):
+                vef_pixels(out, spec, st)
+            elif spec[0] in ("cm3", "mge", "rat"):
                 # fixed-geometry formats: the header must announce the size the format dictates for this picture type,
                 # and the samples that follow must be the picture's (a header / table mis-read desynchronises them)
                 obligations_pixels(out, spec, st, pid)
@@ -312,6 +329,8 @@ def obligations_pixels(out, spec, st, pid):
             continue
         if case.decoder == "maxtoppm" and p.get("value") is False:
             max_refusal_ob(out, case, p, spec, st)
+        if case.decoder in ("cm3toppm", "mgetoppm", "rattoppm") and p.get("header_ok") is False and pid != "C18":
+            out["sigs"].append((f"header:{case.decoder}", f"{case.name}: the PPM header differs from the size the format dictates for this picture type", {"case": str(spec)}))
         got = p.get("samples", p.get("got"))
         for pc2, want in want_for(case, p, st):
             if want is None:
@@ -515,9 +534,21 @@ def vef_pixels(out, spec, st):
         if p["status"] != "ok" or p["writer"] is None or p["writer"].bitmap is None:
             continue
         w = p["writer"]
+        tb = case.params["type_byte"]
+        # dimensions of the final image: the VEF screen types (0: 320x200x16, 1: 640x200x4, 3: 320x200x4, 4: 640x200x2);
+        # 640-wide screens are doubled in height for the aspect ratio, 320-wide ones are left alone
+        VEF_DIMS = {0: (320, 200), 1: (640, 200), 3: (320, 200), 4: (640, 200)}
+        if tb in VEF_DIMS:
+            st.bump("obligations")
+            ew, eh = VEF_DIMS[tb]
+            final = p.get("resized") or (w.width, w.height)
+            want_final = (640, 400) if ew == 640 else (ew, eh)
+            if (w.width, w.height) != (ew, eh) or tuple(final) != want_final:
+                out["sigs"].append((f"dimensions:veftopng:type{tb}", f"{case.name}: PNG written as {w.width}x{w.height}, final image {tuple(final)}; screen type dictates {ew}x{eh} -> {want_final}", {"case": str(spec)}))
+            else:
+                st.bump("identity")
         got = [term(c) for c in w.bitmap.cells]
         pal = [term(c) for c in p["pal"]]
-        tb = case.params["type_byte"]
         data = [term(x) if not isinstance(x, int) else bv(x) for x in p["body"]]
         if spec[0] == "vefsq":
             d = p["data"]
@@ -569,7 +600,33 @@ def vef_palette(out, st):
 
 
 # ---- C18
+def pipe_equivalence(out, spec, st):
+    """input from a pipe (no seek / tell) must give what the same bytes give from a file: the case is run twice"""
+    inner = spec[1]
+    sums = {}
+    for pipe in (False, True):
+        pysym.Stream.PIPE = pipe
+        try:
+            case = make_case(inner)
+        finally:
+            pysym.Stream.PIPE = False
+        sums[pipe] = sorted((p["status"], p["detail"].split(":")[0] if p["status"] != "ok" else "", len(p["out"] or []), str([str(x) for x in (p["out"] or [])[:40]])) for p in case.paths)
+        out["paths"] += len(case.paths)
+    out["name"] = "pipe:" + case.name
+    out["encoded"].append((case.decoder, case.src))
+    st.bump("obligations")
+    if sums[False] == sums[True]:
+        st.bump("identity")
+    else:
+        a = [x[:3] for x in sums[False]][:3]
+        b = [x[:3] for x in sums[True]][:3]
+        out["sigs"].append((f"pipe-differs:{case.decoder}", f"{case.name}: from a file {a}, from a pipe {b}", {"case": str(spec)}))
+    out["samples"].append({"case": out["name"], "paths_file": len(sums[False]), "paths_pipe": len(sums[True])})
+
+
 def obligations_size(out, spec, st):
+    if spec[0] == "pipe":
+        return pipe_equivalence(out, spec, st)
     if spec[0] == "maxskipnews":
         # skipping N bytes = decoding the input with its first N bytes removed (newsroom header variant)
         a = S.max_case(0, True, 256, None, 2, False, 6)
@@ -671,6 +728,18 @@ def obligations_damage(out, spec, st):
         out["forks"] += p["decisions"]
         if p["status"] == "unwind":
             out["unwound"] += 1
+            if "while loop beyond" in p["detail"]:
+                # "the decoder terminates": a while loop that is still running after the unwinding bound on an input of
+                # a few bytes is a candidate; decided by replaying a model of the path on the real decoder in a child
+                # process with a time limit
+                st.bump("obligations")
+                v, m = smt.check(p["pc"] + case.premises, 20000, True, stats=st)
+                st.bump(v)
+                if v == "sat":
+                    verdict = replay_terminates(case, m, 20)
+                    st.bump("replays")
+                    if verdict == "timeout":
+                        out["sigs"].append((f"nontermination:{d}", f"{case.name}: the decoder does not terminate within 20 s on an input of {len(case.cells)} symbolic bytes ({p['detail']})", {"case": str(spec)}))
             continue
         if d == "mgetoppm" and ":hdr" in case.name and len(p.get("samples") or []) > 0:
             # corrupted header field: a path that gets as far as writing picture samples must have checked the first
@@ -756,6 +825,30 @@ def obligations_damage(out, spec, st):
                     out["sigs"].append(("silent:veftopng:palette-index-above-63", f"{case.name}: a palette byte above 63 is written as a pixel index", {"case": str(spec)}))
     if len(out["samples"]) < 1:
         out["samples"].append({"case": case.name, "paths": out["paths"], "beyond_unwinding_bound": out["unwound"]})
+
+
+def replay_terminates(case, model, limit_s):
+    """run case.replay(model) in a forked child; 'done' or 'timeout' (os.fork: pool workers may not use multiprocessing)"""
+    import os
+    import signal
+    import time as _time
+
+    pid = os.fork()
+    if pid == 0:
+        try:
+            case.replay(model)
+        except BaseException:  # noqa: BLE001
+            pass
+        os._exit(0)
+    t0 = _time.time()
+    while _time.time() - t0 < limit_s:
+        done, _ = os.waitpid(pid, os.WNOHANG)
+        if done:
+            return "done"
+        _time.sleep(0.05)
+    os.kill(pid, signal.SIGKILL)
+    os.waitpid(pid, 0)
+    return "timeout"
 
 
 def truncation_sweeps(out, spec, st):
